@@ -1,5 +1,5 @@
 (* Invariants of the composed process machine (Conc/C08Sys.v), over all label sequences. *)
-From Coq Require Import List ZArith NArith Bool Lia Arith.
+From Coq Require Import List ZArith NArith Bool Lia Arith ZifyNat.
 From TarsV Require Import Rpc.ReqId Rpc.ReqIdProofs Conc.Pending Conc.PendingProofs Conc.C08Sys.
 Import ListNotations.
 Open Scope Z_scope.
@@ -448,3 +448,165 @@ Qed.
 (* a registration needs an id of the thread's own: a thread that has not finished genRequestID cannot register *)
 Example sys_ex_no_id : srun 2147483647 (sinit 5 1 1) [SGen (LCall 0); SGen (LCas 0); SReg 0 0 false] = None.
 Proof. vm_compute. reflexivity. Qed.
+
+(* ---------- without the proviso the clause is false: the counter is 32 bits wide ---------- *)
+Definition one_call (t : nat) : list slabel := [SGen (LCall t); SGen (LCas t); SGen (LAdd t)].
+Definition M : Z := 2147483647.
+
+Lemma srun_app_M ls1 : forall s ls2, srun M s (ls1 ++ ls2) = match srun M s ls1 with Some s1 => srun M s1 ls2 | None => None end.
+Proof. induction ls1 as [|l ls1 IH]; intros s ls2; cbn [app srun]; auto. destruct (sstep M s l); auto. Qed.
+
+Definition idle_or_done (pc : tpc) : Prop := pc = TIdle \/ exists v, pc = TDone v.
+
+(* one whole genRequestID call of thread t, counter in 2 .. maxInt32-1: the id is counter+1 *)
+Lemma one_call_run s t pc : nth_error (pcs (gen s)) t = Some pc -> idle_or_done pc ->
+  2 <= ctr (gen s) < M ->
+  exists s', srun M s (one_call t) = Some s' /\ ctr (gen s') = ctr (gen s) + 1 /\ ads s' = ads s /\ born s' = born s /\
+             nth_error (pcs (gen s')) t = Some (TDone (ctr (gen s) + 1)) /\
+             (forall t', t' <> t -> nth_error (pcs (gen s')) t' = nth_error (pcs (gen s)) t').
+Proof.
+  intros Et Hpc Hc.
+  (* LCall *)
+  assert (S1 : sstep M s (SGen (LCall t)) = Some {| gen := {| ctr := ctr (gen s); pcs := set_nth t TAtCas (pcs (gen s)); hist := hist (gen s); ids := ids (gen s) |};
+                                                   tpos := tpos s; ads := ads s; born := born s |}).
+  { cbn [sstep ReqId.step]. rewrite Et. destruct Hpc as [->|[v ->]]; reflexivity. }
+  set (s1 := {| gen := {| ctr := ctr (gen s); pcs := set_nth t TAtCas (pcs (gen s)); hist := hist (gen s); ids := ids (gen s) |};
+                tpos := tpos s; ads := ads s; born := born s |}) in *.
+  assert (E1 : nth_error (pcs (gen s1)) t = Some TAtCas).
+  { unfold s1. cbn [gen pcs]. rewrite nth_error_set_nth, Nat.eqb_refl, Et. reflexivity. }
+  (* LCas: the counter is not at the threshold *)
+  assert (S2 : sstep M s1 (SGen (LCas t)) = Some {| gen := {| ctr := ctr (gen s); pcs := set_nth t TAtAdd (pcs (gen s1)); hist := hist (gen s); ids := ids (gen s) |};
+                                                    tpos := tpos s; ads := ads s; born := born s |}).
+  { cbn [sstep ReqId.step]. rewrite E1. unfold cas. unfold s1 at 1. cbn [gen ctr].
+    destruct (ctr (gen s) =? M) eqn:Em; [apply Z.eqb_eq in Em; lia|]. reflexivity. }
+  set (s2 := {| gen := {| ctr := ctr (gen s); pcs := set_nth t TAtAdd (pcs (gen s1)); hist := hist (gen s); ids := ids (gen s) |};
+                tpos := tpos s; ads := ads s; born := born s |}) in *.
+  assert (E2 : nth_error (pcs (gen s2)) t = Some TAtAdd).
+  { unfold s2. cbn [gen pcs]. rewrite nth_error_set_nth, Nat.eqb_refl, E1. reflexivity. }
+  (* LAdd *)
+  assert (A : add (ctr (gen s2)) = ctr (gen s) + 1).
+  { unfold s2. cbn [gen ctr]. apply add_lt; unfold in_i32, two31, M in *; lia. }
+  assert (S3 : exists s3, sstep M s2 (SGen (LAdd t)) = Some s3 /\ ctr (gen s3) = ctr (gen s) + 1 /\ ads s3 = ads s /\ born s3 = born s /\
+                          pcs (gen s3) = set_nth t (TDone (ctr (gen s) + 1)) (pcs (gen s2))).
+  { cbn [sstep ReqId.step]. rewrite E2, A.
+    destruct (ctr (gen s) + 1 =? 0) eqn:Ez; [apply Z.eqb_eq in Ez; lia|].
+    eexists. split; [reflexivity|]. cbn [gen ctr ads born pcs]. auto. }
+  destruct S3 as [s3 [S3 [C3 [A3 [B3 P3]]]]].
+  exists s3. unfold one_call. cbn [srun]. rewrite S1, S2, S3. repeat split; auto.
+  - rewrite P3, nth_error_set_nth, Nat.eqb_refl, E2. reflexivity.
+  - intros t' Hne. rewrite P3. unfold s2, s1. cbn [gen pcs]. rewrite !nth_error_set_nth.
+    destruct (Nat.eqb t t') eqn:Eq; [apply Nat.eqb_eq in Eq; congruence|reflexivity].
+Qed.
+
+(* the wrapping call: the counter stands at the threshold, the Cas resets it to 1, the Add returns 2 *)
+Lemma one_call_wrap s t pc : nth_error (pcs (gen s)) t = Some pc -> idle_or_done pc -> ctr (gen s) = M ->
+  exists s', srun M s (one_call t) = Some s' /\ ads s' = ads s /\ born s' = born s /\
+             nth_error (pcs (gen s')) t = Some (TDone 2).
+Proof.
+  intros Et Hpc Hc.
+  assert (S1 : sstep M s (SGen (LCall t)) = Some {| gen := {| ctr := ctr (gen s); pcs := set_nth t TAtCas (pcs (gen s)); hist := hist (gen s); ids := ids (gen s) |};
+                                                   tpos := tpos s; ads := ads s; born := born s |}).
+  { cbn [sstep ReqId.step]. rewrite Et. destruct Hpc as [->|[v ->]]; reflexivity. }
+  set (s1 := {| gen := {| ctr := ctr (gen s); pcs := set_nth t TAtCas (pcs (gen s)); hist := hist (gen s); ids := ids (gen s) |};
+                tpos := tpos s; ads := ads s; born := born s |}) in *.
+  assert (E1 : nth_error (pcs (gen s1)) t = Some TAtCas).
+  { unfold s1. cbn [gen pcs]. rewrite nth_error_set_nth, Nat.eqb_refl, Et. reflexivity. }
+  assert (S2 : sstep M s1 (SGen (LCas t)) = Some {| gen := {| ctr := 1; pcs := set_nth t TAtAdd (pcs (gen s1)); hist := hist (gen s); ids := ids (gen s) |};
+                                                    tpos := tpos s; ads := ads s; born := born s |}).
+  { cbn [sstep ReqId.step]. rewrite E1. unfold cas. unfold s1 at 1. cbn [gen ctr]. rewrite Hc, Z.eqb_refl. reflexivity. }
+  set (s2 := {| gen := {| ctr := 1; pcs := set_nth t TAtAdd (pcs (gen s1)); hist := hist (gen s); ids := ids (gen s) |};
+                tpos := tpos s; ads := ads s; born := born s |}) in *.
+  assert (E2 : nth_error (pcs (gen s2)) t = Some TAtAdd).
+  { unfold s2. cbn [gen pcs]. rewrite nth_error_set_nth, Nat.eqb_refl, E1. reflexivity. }
+  assert (S3 : exists s3, sstep M s2 (SGen (LAdd t)) = Some s3 /\ ads s3 = ads s /\ born s3 = born s /\
+                          pcs (gen s3) = set_nth t (TDone 2) (pcs (gen s2))).
+  { cbn [sstep ReqId.step]. rewrite E2. change (add (ctr (gen s2))) with 2. cbn [Z.eqb].
+    eexists. split; [reflexivity|]. cbn [gen ctr ads born pcs]. auto. }
+  destruct S3 as [s3 [S3 [A3 [B3 P3]]]].
+  exists s3. unfold one_call. cbn [srun]. rewrite S1, S2, S3. repeat split; auto.
+  rewrite P3, nth_error_set_nth, Nat.eqb_refl, E2. reflexivity.
+Qed.
+
+(* n calls in a row by thread t *)
+Lemma calls_run n : forall s t pc, nth_error (pcs (gen s)) t = Some pc -> idle_or_done pc ->
+  2 <= ctr (gen s) -> ctr (gen s) + Z.of_nat n <= M ->
+  exists s' pc', srun M s (concat (repeat (one_call t) n)) = Some s' /\ ctr (gen s') = ctr (gen s) + Z.of_nat n /\
+             ads s' = ads s /\ born s' = born s /\
+             nth_error (pcs (gen s')) t = Some pc' /\ idle_or_done pc' /\
+             (forall t', t' <> t -> nth_error (pcs (gen s')) t' = nth_error (pcs (gen s)) t').
+Proof.
+  induction n as [|n IH]; intros s t pc Et Hpc Hc Hn.
+  - exists s, pc. cbn [repeat concat srun]. repeat split; auto. lia.
+  - cbn [repeat concat]. rewrite srun_app_M.
+    destruct (one_call_run s t pc Et Hpc ltac:(lia)) as [s1 [R1 [C1 [A1 [B1 [P1 O1]]]]]].
+    rewrite R1.
+    destruct (IH s1 t _ P1 (or_intror (ex_intro _ _ eq_refl)) ltac:(lia) ltac:(lia)) as [s2 [pc2 [R2 [C2 [A2 [B2 [P2 [I2 O2]]]]]]]].
+    exists s2, pc2. rewrite R2. repeat split; auto; try congruence; try lia.
+    intros t' Hne. rewrite (O2 _ Hne). auto.
+Qed.
+
+Lemma big_sum : 2 + Z.of_nat (Z.to_nat 2147483645) = M.
+Proof. unfold M. lia. Qed.
+
+Definition wrap_labels_n (n : nat) : list slabel :=
+  one_call 0 ++ [SReg 0 0 false] ++ concat (repeat (one_call 1) n) ++ one_call 1 ++ [SReg 1 0 false].
+
+Lemma wrap_general n : 2 + Z.of_nat n = M ->
+  exists s ad c1 c2, srun M (sinit 1 2 1) (wrap_labels_n n) = Some s /\ nth_error (ads s) 0 = Some ad /\
+    nth_error (calls ad) 0 = Some c1 /\ nth_error (calls ad) 1 = Some c2 /\
+    active c1 = true /\ active c2 = true /\ c_id c1 = 2 /\ c_id c2 = 2.
+Proof.
+  intros Hn. unfold wrap_labels_n. rewrite srun_app_M.
+  (* thread 0: id 2, registered *)
+  assert (R0 : srun M (sinit 1 2 1) (one_call 0) =
+    Some {| gen := {| ctr := 2; pcs := [TDone 2; TIdle]; hist := [2]; ids := [2] |}; tpos := [0%nat; 0%nat]; ads := [Pending.init]; born := [[]] |})
+    by (vm_compute; reflexivity).
+  rewrite R0. rewrite srun_app_M.
+  set (s1 := {| gen := {| ctr := 2; pcs := [TIdle; TIdle]; hist := [2]; ids := [2] |}; tpos := [0%nat; 0%nat];
+            ads := [{| table := [(2, 0%nat)]; calls := [{| c_id := 2; c_oneway := false; c_pc := CReg |}]; recvs := [] |}]; born := [[0%nat]] |}).
+  assert (R1 : srun M {| gen := {| ctr := 2; pcs := [TDone 2; TIdle]; hist := [2]; ids := [2] |}; tpos := [0%nat; 0%nat]; ads := [Pending.init]; born := [[]] |} [SReg 0 0 false] = Some s1)
+    by (vm_compute; reflexivity).
+  rewrite R1. rewrite srun_app_M.
+  destruct (calls_run n s1 1%nat TIdle eq_refl (or_introl eq_refl)) as [s2 [pc2 [R2 [C2 [A2 [B2 [P2 [I2 O2]]]]]]]].
+  { change (ctr (gen s1)) with 2. lia. } { change (ctr (gen s1)) with 2. lia. }
+  rewrite R2. change (ctr (gen s1)) with 2 in C2. rewrite Hn in C2.
+  (* the wrapping call of thread 1 *)
+  rewrite srun_app_M.
+  destruct (one_call_wrap s2 1%nat pc2 P2 I2 C2) as [s3 [R3 [A3 [B3 P3]]]].
+  rewrite R3. cbn [srun sstep]. rewrite P3, A3, A2, B3, B2.
+  eexists. eexists. eexists. eexists. split; [vm_compute; reflexivity|]. vm_compute. repeat split; reflexivity.
+Qed.
+
+(* The unconditional clause "no two concurrently outstanding calls of a process share an id" is false of the model, hence
+   of the code (a 32-bit counter): thread 0 allocates id 2 and registers a call that stays outstanding; thread 1 performs
+   2^31-3 further allocations (3 .. maxInt32), then one more — the Cas resets the counter, the Add returns 2 — and registers
+   a second call under id 2 on the same adapter.  (Symbolic: the 2^31 labels are never computed.) *)
+Definition wrap_labels : list slabel := wrap_labels_n (Z.to_nat 2147483645).
+
+Theorem outstanding_share_id_after_wrap :
+  exists s ad c1 c2, srun M (sinit 1 2 1) wrap_labels = Some s /\ nth_error (ads s) 0 = Some ad /\
+    nth_error (calls ad) 0 = Some c1 /\ nth_error (calls ad) 1 = Some c2 /\
+    active c1 = true /\ active c2 = true /\ c_id c1 = 2 /\ c_id c2 = 2.
+Proof. exact (wrap_general _ big_sum). Qed.
+
+(* ... so the clause holds only with the proviso of sys_outstanding_distinct *)
+Theorem unconditional_distinct_refuted :
+  ~ (forall c0 nt na ls s a1 k1 c1 p1 a2 k2 c2 p2, in_i32 c0 -> srun M (sinit c0 nt na) ls = Some s ->
+       call_at s a1 k1 c1 p1 -> call_at s a2 k2 c2 p2 -> active c1 = true -> active c2 = true -> c_id c1 = c_id c2 ->
+       a1 = a2 /\ k1 = k2).
+Proof.
+  intros H. destruct outstanding_share_id_after_wrap as [s [ad [c1 [c2 [R [A [C1 [C2 [Act1 [Act2 [I1 I2]]]]]]]]]]].
+  pose proof (run_SI M 1 _ _ _ _ R) as I.
+  destruct (si_born _ _ _ I _ _ A) as [b [B L]].
+  assert (L1 : (0 < length b)%nat) by (rewrite L; eapply nth_error_lt; eauto).
+  assert (L2 : (1 < length b)%nat) by (rewrite L; eapply nth_error_lt; eauto).
+  destruct (nth_error b 0) as [p1|] eqn:E1; [|apply nth_error_None in E1; lia].
+  destruct (nth_error b 1) as [p2|] eqn:E2; [|apply nth_error_None in E2; lia].
+  assert (X : 0%nat = 0%nat /\ 0%nat = 1%nat).
+  { apply (H 1 2%nat 1%nat wrap_labels s 0%nat 0%nat c1 p1 0%nat 1%nat c2 p2); auto.
+    - unfold in_i32, two31. lia.
+    - exists ad, b. auto.
+    - exists ad, b. auto.
+    - congruence. }
+  destruct X as [_ X]. discriminate X.
+Qed.
